@@ -109,8 +109,11 @@ type c47Example struct {
 	Observed string `json:"observed"`
 	Expected string `json:"expected"`
 	Note     string `json:"note,omitempty"`
-	tree     *c47Node
-	path     *c47Path
+}
+
+type c47Ref struct {
+	tree *c47Node
+	path *c47Path
 }
 
 func c47Less(a, b c47Example) bool {
@@ -132,6 +135,7 @@ type c47Ctx struct {
 	found    map[string]c47Example
 	spelling map[string]c47Example // AS-spelling discrepancies, one root cause
 	spellN   map[string]int64
+	spellRef map[string]c47Ref
 	tallies  map[string]int64
 	evals    int64
 	distinct int64
@@ -146,10 +150,11 @@ func (c *c47Ctx) finding(key string, ex c47Example) {
 	c.mu.Unlock()
 }
 
-func (c *c47Ctx) spellingFinding(kind string, ex c47Example) {
+func (c *c47Ctx) spellingFinding(kind string, ex c47Example, ref c47Ref) {
 	c.mu.Lock()
 	if old, ok := c.spelling[kind]; !ok || c47Less(ex, old) {
 		c.spelling[kind] = ex
+		c.spellRef[kind] = ref
 	}
 	c.spellN[kind]++
 	c.mu.Unlock()
@@ -298,11 +303,10 @@ func (c *c47Ctx) evalSequence(set *c47Set, tree *c47Node, expr, form string, t *
 			}
 			continue
 		}
-		ex := c47Example{Expr: expr, Path: p.txt, Observed: fmt.Sprintf("kept=%v", got), Expected: fmt.Sprintf("kept=%v", want),
-			tree: tree, path: p}
+		ex := c47Example{Expr: expr, Path: p.txt, Observed: fmt.Sprintf("kept=%v", got), Expected: fmt.Sprintf("kept=%v", want)}
 		if spell != "" {
 			t.out["seq:alt-as-spelling-discrepancy"]++
-			c.spellingFinding(spell, ex)
+			c.spellingFinding(spell, ex, c47Ref{tree, p})
 			continue
 		}
 		if got {
@@ -783,7 +787,7 @@ func TestC47(t *testing.T) {
 		"all discrepancies on expressions that spell an AS differently from the path side (upper-case hex, hex form of an AS <= 2^32-1) " +
 			"are one root cause and reported as ONE finding",
 	}
-	c := &c47Ctx{r: r, found: map[string]c47Example{}, spelling: map[string]c47Example{}, spellN: map[string]int64{},
+	c := &c47Ctx{r: r, found: map[string]c47Example{}, spelling: map[string]c47Example{}, spellN: map[string]int64{}, spellRef: map[string]c47Ref{},
 		tallies: map[string]int64{}, seen: map[string]bool{}}
 	phases := map[string]float64{}
 	last := time.Now()
@@ -839,10 +843,10 @@ func TestC47(t *testing.T) {
 		for _, k := range kinds {
 			ex := c.spelling[k]
 			// control: the same expression with the AS spelled the way paths print it
-			canon := c47Canonicalise(ex.tree)
+			canon := c47Canonicalise(c.spellRef[k].tree)
 			if seq, err := pathpol.NewSequence(canon.minimal()); err == nil {
 				ex.Note = fmt.Sprintf("control: %q (same AS, canonical spelling) gives kept=%v", canon.minimal(),
-					len(seq.Eval([]snet.Path{ex.path})) == 1)
+					len(seq.Eval([]snet.Path{c.spellRef[k].path})) == 1)
 			}
 			detail[k] = ex
 		}
